@@ -1,7 +1,7 @@
 #!/bin/sh
 # usage: tools/verify_seed.sh <seed-dir> ; verifies a seeded change against /repo's HEAD in a scratch worktree:
 #   clean tree: demo passes;  with patch: the 81 tests pass AND the demo fails.
-d="$1"; id=$(basename "$d"); wt=/tmp/wt/verify_$id
+d="$(readlink -f "$1")"; id=$(basename "$d"); wt=/tmp/wt/verify_$id
 export CARGO_NET_OFFLINE=true CARGO_TARGET_DIR=/tmp/wt/target_verify RUST_BACKTRACE=0
 git -C /repo worktree remove --force "$wt" 2>/dev/null
 git -C /repo worktree add -q --detach "$wt" HEAD || exit 2
